@@ -75,3 +75,11 @@ Fixpoint picks (L : nat) (a : N) : gen (list N) :=
   | O => Ret nil
   | S L' => Pick a (fun i => bind (picks L' a) (fun r => Ret (i :: r)))
   end.
+
+(** The bounded retry loop of CharRecipe.Generate: up to T whole-candidate
+    attempts; the first one that passes the filter is returned. *)
+Fixpoint retry {C} (T : nat) (att : gen C) (ok : C -> bool) : gen (outcome C) :=
+  match T with
+  | O => Ret (Err EExhausted)
+  | S T' => bind att (fun c => if ok c then Ret (Done c) else retry T' att ok)
+  end.
